@@ -5,5 +5,5 @@ CONSTANTS
   Taus <- TausQ
   Deviations <- DevD6
   Emit = TRUE
-INVARIANTS TypeOK Completeness Bound TimeBound NoIdentity EmitVec
+INVARIANTS TypeOK Completeness Bound TimeBound ReuseExtracts NoIdentity EmitVec
 CHECK_DEADLOCK FALSE
